@@ -5,7 +5,7 @@ use std::iter::Peekable;
 
 use rustc_span::{BytePos, Span};
 
-use crate::comment::{FindUncommented, find_comment_end, rewrite_comment};
+use crate::comment::{FindUncommented, ends_with_line_comment, find_comment_end, rewrite_comment};
 use crate::config::lists::*;
 use crate::config::{Config, IndentStyle};
 use crate::rewrite::{ExceedsMaxWidthError, RewriteContext, RewriteError, RewriteResult};
@@ -168,13 +168,18 @@ impl ListItem {
     }
 
     pub(crate) fn has_single_line_comment(&self) -> bool {
+        // A comment that starts with a block comment can still end with a line comment
+        // (`/* a */ // b`): what follows it must not be put on the same line either.
+        fn is_or_ends_with_line_comment(comment: &str) -> bool {
+            comment.trim_start().starts_with("//") || ends_with_line_comment(comment)
+        }
         self.pre_comment
             .as_ref()
-            .map_or(false, |comment| comment.trim_start().starts_with("//"))
+            .map_or(false, |comment| is_or_ends_with_line_comment(comment))
             || self
                 .post_comment
                 .as_ref()
-                .map_or(false, |comment| comment.trim_start().starts_with("//"))
+                .map_or(false, |comment| is_or_ends_with_line_comment(comment))
     }
 
     pub(crate) fn has_comment(&self) -> bool {
